@@ -192,7 +192,7 @@ impl Srv {
     let thread = std::thread::spawn(move || {
       let _ = server.run(settings, index2, handle2, Some(tx));
     });
-    let port = rx.recv_timeout(Duration::from_secs(20)).map_err(|_| anyhow::anyhow!("server did not report its port"))?;
+    let port = rx.recv_timeout(Duration::from_secs(120)).map_err(|_| anyhow::anyhow!("server did not report its port"))?;
     Ok(Srv { url: format!("http://127.0.0.1:{port}"), index, handle, thread: Some(thread) })
   }
 }
@@ -240,7 +240,7 @@ pub struct Http {
 impl Http {
   pub fn new() -> Self {
     Self {
-      client: reqwest::blocking::Client::builder().no_brotli().no_gzip().no_proxy().redirect(reqwest::redirect::Policy::none()).timeout(Duration::from_secs(30)).build().unwrap(),
+      client: reqwest::blocking::Client::builder().no_brotli().no_gzip().no_proxy().redirect(reqwest::redirect::Policy::none()).timeout(Duration::from_secs(120)).build().unwrap(),
     }
   }
 
